@@ -204,7 +204,8 @@ func checkC09(r *Run) {
 		"for each of the 11 Session methods: every parameter of the client method reaches exactly one field of the T-message (identity, or one of the documented conversions: same-width int64/uint64, len(p)→uint32 count, uint32→int), and the server dispatcher passes that same field as the same-position argument of Session.M — the composition is the identity on arguments",
 		"every result of Session.M reaches one field of the R-message on the server and the client returns that same field at the same result position (conversions: int→uint32 count, prefix-of-buffer, copy into the caller's buffer)",
 		"the reply is consumed through a checked assertion to the R-type whose code is T+1, on whose failure an error is returned; transport errors are returned unchanged",
-		"the dispatch table is exhaustive (shared with C06); Tread buffers are sized from Count with the msize clamp")
+		"the dispatch table is exhaustive (shared with C06); Tread buffers are sized from Count with the msize clamp",
+		"both read loops decode every frame into an Fcall allocated for that frame and hand on that very object (no reply/request object is shared between concurrent calls)")
 	r.NotDecided = append(r.NotDecided, "transport of field values through the codec (C01 decides the layout)", "clipping of read/write sizes to msize as values; whole-second timestamps", "that all concurrent calls complete (flow-control coupling of the two loops is a timing property)")
 
 	iface, _ := p.Obj("p9p", "Session").Type().Underlying().(*types.Interface)
@@ -446,6 +447,10 @@ func checkC09(r *Run) {
 		r.Check(nOk >= 1, "msgflow", "client."+name+": success return on the ok edge of the reply assertion", cm.Pos(), "no return on the ok edge")
 	}
 	r.Floor("msgflow", nMethods, 11, "Session methods with client and server side")
+	// concurrency half: callers obtain their own results — every frame is a fresh object (client reader and server reader)
+	_, rdr := transportRoles(p)
+	checkFreshFrame(r, rdr, "fresh-frame")
+	checkFreshFrame(r, p.Fn("p9p:(*conn).read"), "fresh-frame")
 	checkDispatchTable(r, "dispatch")
 	// Tread clamp in the dispatcher: the buffer length never exceeds msize-11 when positive and is never negative (bounds rule)
 	n := dischargeBounds(r, h, "bounds", nil)
